@@ -108,10 +108,10 @@ def run(ctx):
         elif f[0] == "EVALS":
             ctx.cov["evaluations"] += int(f[1])
             ctx.notes["search_evaluations"] = int(f[1])
-    for f in fails:
-        ctx.failing_input(f[1], f[2], f[3], f[4])
-    ctx.log("search: %d failing-input signatures" % len(fails))
-    if mism and not fails:
+    # a failing input that is a recorded known finding must not hide a model/implementation mismatch
+    new_fails = [f for f in fails if ctx.failing_input(f[1], f[2], f[3], f[4])]
+    ctx.log("search: %d failing-input signatures (%d not known)" % (len(fails), len(new_fails)))
+    if mism and not new_fails:
         by_id = {}
         for l in lines:
             p = l.split("\t")
